@@ -36,8 +36,18 @@ class PairingRoles:
             by.setdefault((tuple(nrm(x) for x in b.rec["inputs"]), b.rec.get("output")), []).append(b)
         self.by_sig = by
         g = lambda ins, out: [b for b in by.get((tuple(nrm(x) for x in ins), out), [])]
-        self.tangent_eval = g(["&" + G2T, "&" + G1T], PAIR12)
-        self.chord_eval = g(["&" + G2T, "&" + G2T, "&" + G1T], PAIR12)
+
+        def pair12(out):
+            """a (numerator, denominator) pair of Fq12: the tuple, or a local struct of exactly two Fq12 fields"""
+            if out == PAIR12:
+                return True
+            a = F.adts.get(out or "")
+            return bool(a) and len(a["variants"]) == 1 and [f["ty"] for f in a["variants"][0]["fields"]] == [FQ12, FQ12]
+
+        def gp(ins):
+            return [b for (i2, o2), bs in by.items() for b in bs if i2 == tuple(nrm(x) for x in ins) and pair12(o2)]
+        self.tangent_eval = gp(["&" + G2T, "&" + G1T])
+        self.chord_eval = gp(["&" + G2T, "&" + G2T, "&" + G1T])
         self.tangent_step = g(["&mut " + G2T], TRIPLE)
         self.chord_step = g(["&mut " + G2T, "&" + G2T], TRIPLE)
         self.twist_frob = g(["&" + G2T], G2T)
